@@ -8,13 +8,13 @@ cd $WT || exit 2
 TAGS=""; grep -q "go:build verif" demo_test.go 2>/dev/null && TAGS="-tags verif"
 [ -f demo_test.go ] || cp out/demo_test.go demo_test.go
 RUN=$(grep -o 'func Test[A-Za-z0-9_]*' demo_test.go | sed 's/func //' | paste -sd'|')
-go test $TAGS -vet=off -count=1 -timeout 10m -run "^($RUN)\$" . >/tmp/mut.with.log 2>&1; W=$?
-git diff > /tmp/mut.change.$$.diff; git apply -R /tmp/mut.change.$$.diff; go test $TAGS -vet=off -count=1 -timeout 10m -run "^($RUN)\$" . >/tmp/mut.without.log 2>&1; WO=$?; git apply /tmp/mut.change.$$.diff; rm -f /tmp/mut.change.$$.diff
+go test $TAGS -vet=off -count=1 -timeout 10m -run "^($RUN)\$" . >/tmp/mut.with.$$.log 2>&1; W=$?
+git diff > /tmp/mut.change.$$.diff; git apply -R /tmp/mut.change.$$.diff; go test $TAGS -vet=off -count=1 -timeout 10m -run "^($RUN)\$" . >/tmp/mut.without.$$.log 2>&1; WO=$?; git apply /tmp/mut.change.$$.diff; rm -f /tmp/mut.change.$$.diff
 echo "demo with change: exit $W (want 1); without: exit $WO (want 0)"
-mv demo_test.go /tmp/demo_test.go.keep
+mv demo_test.go /tmp/demo_test.go.keep.$$
 go build ./ && go build -tags verif ./ || echo "BUILD FAILS"
 go test -vet=off -count=1 -timeout 20m . 2>&1 | grep -E "^--- FAIL" | tr '\n' ' '; echo "<- suite failures with change (only TestVerifyHostname allowed)"
-mv /tmp/demo_test.go.keep demo_test.go
+mv /tmp/demo_test.go.keep.$$ demo_test.go
 mv demo_test.go out/demo_test.go.applied 2>/dev/null
 cd /verif
 for p in "$@"; do
